@@ -2,6 +2,7 @@
 pub mod ast;
 pub mod checks;
 pub mod faults;
+pub mod fuzzsupport;
 pub mod gen;
 pub mod refeval;
 pub mod numgrid;
